@@ -75,7 +75,8 @@ func c10Params(t string) []string {
 	case models.ShardMycatMURMUR:
 		return []string{"valid", "seed-non-numeric", "seed-empty", "seed-negative"}
 	case models.ShardMycatPaddingMod:
-		return []string{"valid", "left", "pad-shorter-than-mod-end", "bad-from", "zero-length", "non-numeric", "begin-after-end"}
+		return []string{"valid", "left", "begin-zero", "begin-zero-left", "short-pad", "short-pad-left", "whole-key", "whole-key-left", "one-digit",
+			"pad-shorter-than-mod-end", "bad-from", "zero-length", "non-numeric", "begin-after-end"}
 	}
 	return []string{"valid"}
 }
@@ -306,8 +307,13 @@ func c10BuildNS(sp c10Spec) *models.Namespace {
 				sh.VirtualBucketTimes = ""
 			}
 		case models.ShardMycatPaddingMod:
-			p := map[string][4]string{"valid": {"1", "18", "10", "16"}, "left": {"0", "18", "10", "16"}, "pad-shorter-than-mod-end": {"1", "5", "10", "14"},
-				"bad-from": {"2", "18", "10", "16"}, "zero-length": {"1", "0", "0", "0"}, "non-numeric": {"x", "18", "10", "16"}, "begin-after-end": {"1", "18", "16", "10"}}[rs.Param]
+			p := map[string][4]string{"valid": {"1", "18", "10", "16"}, "left": {"0", "18", "10", "16"},
+				// valid shapes whose mod segment starts at the first character (where the sign of a negative key sits when
+				// padding goes to the other end), short pads (keys longer than pad_length get cut), the whole key, one digit
+				"begin-zero": {"1", "18", "0", "6"}, "begin-zero-left": {"0", "18", "0", "6"}, "short-pad": {"1", "5", "0", "5"}, "short-pad-left": {"0", "5", "1", "4"},
+				"whole-key": {"1", "18", "0", "18"}, "whole-key-left": {"0", "18", "0", "18"}, "one-digit": {"1", "3", "2", "3"},
+				"pad-shorter-than-mod-end": {"1", "5", "10", "14"},
+				"bad-from":                 {"2", "18", "10", "16"}, "zero-length": {"1", "0", "0", "0"}, "non-numeric": {"x", "18", "10", "16"}, "begin-after-end": {"1", "18", "16", "10"}}[rs.Param]
 			sh.PadFrom, sh.PadLength, sh.ModBegin, sh.ModEnd = p[0], p[1], p[2], p[3]
 		}
 		ns.ShardRules = append(ns.ShardRules, sh)
@@ -325,8 +331,12 @@ type c10Finding struct {
 	Detail string
 }
 
-var c10IntGrid = []int64{math.MinInt64, math.MinInt64 + 1, -1025, -3, -1, 0, 1, 2, 3, 5, 7, 999, 1000, 1023, 1024, 2047, 12345, 1 << 31, 1 << 40, math.MaxInt64 - 1, math.MaxInt64}
-var c10StrGrid = []string{"", "17", "-17", "abc", "hello, world", "你好", "\U0001F600x", "2016-01-01"}
+// key grid of clause (c): extremes, negative and positive integers of 1..19 digits (shorter and longer than
+// the pad lengths of the padding-mod shapes), negative / signed / zero-padded numeric text, non-numeric text
+var c10IntGrid = []int64{math.MinInt64, math.MinInt64 + 1, -123456789012345678, -1000000, -2000, -1025, -17, -3, -1, 0, 1, 2, 3, 5, 7, 999, 1000, 1023, 1024, 2047,
+	12345, 987654, 1 << 31, 1 << 40, 123456789012345678, math.MaxInt64 - 1, math.MaxInt64}
+var c10StrGrid = []string{"", "17", "-17", "-2000", "-00017", "+17", "-9223372036854775808", "9223372036854775807", "12345678901234567890123", "1.5", " 7",
+	"abc", "hello, world", "你好", "\U0001F600x", "2016-01-01"}
 
 func c10RuleIndex(sp c10Spec, db, table string) int {
 	for i, r := range sp.Rules {
@@ -861,6 +871,18 @@ func c10Enumerate(stride int, f func(sp c10Spec)) (total int) {
 			}
 		}
 	}
+	// E0 (never strided): every location-based rule type with every parameter shape on two plain layouts, so that
+	// clause (c) runs its key grid over each shard function and each padding-mod shape in the quick tier too
+	for _, typ := range c10LocTypes {
+		for _, pm := range c10Params(typ) {
+			for _, l := range [][]int{{3}, {1, 2}} {
+				rs := c10PlainRule(typ, "db0", "t1")
+				rs.Locations, rs.Param = l, pm
+				n++
+				f(c10Spec{NSlices: 2, Default: "present", Rules: []c10RuleSpec{rs}})
+			}
+		}
+	}
 	// E1: one location-based rule: type x locations x slice shape x database shape
 	for ns := 1; ns <= 3; ns++ {
 		for _, def := range defaults {
@@ -995,7 +1017,7 @@ func c10Enumerate(stride int, f func(sp c10Spec)) (total int) {
 func TestVerif_C10(t *testing.T) {
 	rec := kit.Start("C10", "exploration", "namespace lattice: 1-3 slices x default slice {present,last,empty,unknown,case-variant} x 0-3 rules of every type (hash, mod, range, date_year/month/day, mycat_mod/long/string/murmur/padding_mod, global, linked, default, unknown) with locations from {-1,0,1,2,3}^<=3, slice lists {matching,shorter,longer,unknown,repeated}, database lists {matching,fewer,more,empty,range,bad range}, date ranges {single,span,descending,overlapping,touching (end of one == start of the next),overlapping by an inner period,repeated single period,single then span from it,reversed+touching,wrong length,bad month,non-numeric,empty}, partition/murmur/padding parameters {valid and invalid variants}, table/parent names in varying case; thorough enumerates the sub-lattices E0-E5 and adds random multi-axis draws, quick strides through the same enumeration plus random draws; non-trivial = distinct structural descriptors of configurations that Verify() accepted")
 	rec.Assume("loading by a proxy is represented by router.NewRouter on a namespace built from the same specification (what proxy/server/namespace.go calls after decoding the stored JSON)")
-	rec.Assume("a KeyError panic of a shard function is its designed rejection of a key; runtime-error panics and indexes outside the sub-table list refute clause (c); clause (c) is evaluated on a fixed grid of 21 integers and 8 strings")
+	rec.Assume("a KeyError panic of a shard function is its designed rejection of a key; runtime-error panics and indexes outside the sub-table list refute clause (c); clause (c) is evaluated on a fixed grid of 27 integers and 16 strings")
 	rec.Assume("a configuration on which Verify() itself panics counts as not accepted (reported in coverage as verify_panics)")
 	defer rec.Finish(t)
 
